@@ -131,14 +131,14 @@ class Effects:
                 else:
                     defs = [d for d in flow.defs if d.name == name]
                 for d in defs:
-                    for r, p in self._roots_def(f, d, path, depth - 1):
+                    for r, p in self._roots_def(f, d, path, depth - 1, at if first else None):
                         out.append((self._param_key2(f, fi, r), p))
                 return out
             f = f.parent
             first = False
         return []
 
-    def _roots_def(self, fi: FuncInfo, d, path, depth) -> List[Effect]:
+    def _roots_def(self, fi: FuncInfo, d, path, depth, use_at=None) -> List[Effect]:
         flow = self.eng.flow(fi)
         if depth <= 0:
             return []
@@ -148,13 +148,13 @@ class Effects:
             v = d.value
             out = self.roots(fi, v, d.nid, path, depth)
             if path and path[0] == "[]" and isinstance(v, (ast.List, ast.Dict, ast.Set, ast.ListComp, ast.DictComp, ast.SetComp, ast.Call)):
-                out += self._inserted(fi, d.name, path[1:], depth)
+                out += self._inserted(fi, d.name, path[1:], depth, use_at)
             return out
         if d.kind == "aug":
             out = []
             for pd in flow.reaching(d.name, d.nid):
                 if pd is not d:
-                    out += self._roots_def(fi, pd, path, depth - 1)
+                    out += self._roots_def(fi, pd, path, depth - 1, use_at)
             if path and path[0] == "[]":
                 out += self.roots(fi, d.value, d.nid, path, depth - 1)
             return out
@@ -175,12 +175,15 @@ class Effects:
             return []
         return []
 
-    def _inserted(self, fi: FuncInfo, name: str, path, depth) -> List[Effect]:
-        """Objects put into the local container `name` anywhere in the function."""
+    def _inserted(self, fi: FuncInfo, name: str, path, depth, use_at=None) -> List[Effect]:
+        """Objects put into the local container `name` by statements that can execute before the use."""
         out = []
         flow = self.eng.flow(fi)
+        before = flow.cfg.reachable([use_at], backward=True) if use_at is not None else None
         for n in own_nodes(fi.node):
             try:
+                if before is not None and isinstance(n, (ast.Call, ast.Assign)) and flow.cfg.node_of(n) not in before:
+                    continue
                 if isinstance(n, ast.Call) and isinstance(n.func, ast.Attribute) and isinstance(n.func.value, ast.Name) and n.func.value.id == name:
                     if n.func.attr in ("append", "add", "insert", "extend", "setdefault") and n.args:
                         at = flow.cfg.node_of(n)
